@@ -12,18 +12,31 @@ pub fn property() -> Property {
     Property {
         id: "C18",
         level: "exploration",
-        rule: "operation histories put(k,v) / get(k) / clear / len / load_factor over a key universe of 12 (so re-insertion of present and of evicted keys is dense) and capacities 1..8 (mostly) and 9 .. 10,000 (with long runs of fresh keys that fill them past capacity), up to 60 (quick) / 200 (thorough) operations; oracle = reference FIFO map (queue of first insertions + map; a re-put keeps its queue position; the oldest present key is evicted when full) compared after EVERY operation: get of all 12 keys, len <= capacity, len, load_factor, internal queue length. Non-trivial = distinct history containing an eviction followed by a lookup of the evicted or of a surviving key",
+        rule: "operation histories put(k,v) / get(k) / clear / len / load_factor over a key universe of 12 (so re-insertion of present and of evicted keys is dense) and capacities 1..8 (mostly) and 9 .. 10,000 (with long runs of fresh keys that fill them past capacity), up to 60 (quick) / 200 (thorough) operations; oracle = reference FIFO map (queue of first insertions + map; a re-put keeps its queue position; the oldest present key is evicted when full) compared after EVERY operation: get of all 12 keys, len <= capacity, len, load_factor, internal queue length. Plus (large_capacity) tables of 10,000,000 (the engine's) and 2^24 entries (thorough: 2^16 .. 2^25) filled to the brim and overflowed by 40 keys. Non-trivial = distinct history containing an eviction followed by a lookup of the evicted or of a surviving key",
         assumptions: &["private HashTable<ZobristHash, u64> reached through the cfg(inkayaku_verif) handle VerifTable"],
         parts: vec![Part {
             name: "histories",
             quick: 100_000,
-            thorough: 2_000_000,
+            thorough: 8_000_000,
             single_shard: false, supplementary: false,
             run: |cfg| {
                 let max = if cfg.tier == crate::run::Tier::Thorough { 200 } else { 60 };
                 run_part(cfg, (prop_oneof![10 => 1..=8usize, 1 => proptest::sample::select(vec![9usize, 64, 1000, 1023, 1024, 2047, 2048, 4096, 5000, 10_000])], proptest::collection::vec(op_strategy(), 0..=max)), |(cap, ops)| History { capacity: *cap, ops: ops.clone() }, check_history)
             },
             replay: |v| replay_case::<History, _>(v, check_history),
+        },
+        Part {
+            // capacities of the size the engine really uses (10 million) and at the boundaries of what 32-bit integers /
+            // floats represent exactly: filled to the brim, then overflowed. One process only (about 1 GB each).
+            name: "large_capacity",
+            quick: 1,
+            thorough: 1,
+            single_shard: true, supplementary: true,
+            run: |cfg| {
+                let caps: Vec<usize> = if cfg.tier == crate::run::Tier::Thorough { vec![1 << 16, 1 << 20, 10_000_000, 1 << 24, (1 << 24) + 1, 1 << 25] } else { vec![10_000_000, 1 << 24] };
+                crate::run::run_exhaustive(cfg, caps.into_iter().map(|capacity| LargeCase { capacity, overflow: 40 }), check_large)
+            },
+            replay: |v| replay_case::<LargeCase, _>(v, check_large),
         }],
     }
 }
@@ -182,5 +195,47 @@ pub fn check_history(h: &History, ctx: &mut Ctx) -> Result<(), String> {
         ctx.nontrivial((h.capacity, &h.ops));
     }
     ctx.sample(|| serde_json::json!({"capacity": h.capacity, "ops": h.ops.iter().take(20).collect::<Vec<_>>(), "evictions": evicted.len()}));
+    Ok(())
+}
+
+// ------------------------------------------------------------------------------------------------
+
+#[derive(Debug, Clone, Serialize, Deserialize)]
+pub struct LargeCase {
+    pub capacity: usize,
+    pub overflow: usize,
+}
+
+pub fn check_large(c: &LargeCase, ctx: &mut Ctx) -> Result<(), String> {
+    let key = |i: usize| (i as u64 + 1).wrapping_mul(0x9E37_79B9_7F4A_7C15);
+    let mut t = VerifTable::new(c.capacity);
+    for i in 0..c.capacity {
+        t.put(key(i), i as u64);
+    }
+    if t.len() != c.capacity || t.queue_len() != c.capacity {
+        return Err(format!("capacity {}: after {} distinct puts len = {}, queue = {}", c.capacity, c.capacity, t.len(), t.queue_len()));
+    }
+    ctx.evals(1);
+    for j in 0..c.overflow {
+        let i = c.capacity + j;
+        t.put(key(i), i as u64);
+        if t.len() > c.capacity {
+            return Err(format!("capacity {}: {} entries after {} distinct puts (the table grew beyond its capacity)", c.capacity, t.len(), i + 1));
+        }
+        if t.len() != c.capacity || t.queue_len() != c.capacity {
+            return Err(format!("capacity {}: after {} distinct puts len = {}, queue = {}", c.capacity, i + 1, t.len(), t.queue_len()));
+        }
+        // first in, first out: exactly the j+1 oldest keys are gone
+        if t.get(key(j)).is_some() {
+            return Err(format!("capacity {}: after {} distinct puts the {}-th oldest key is still present", c.capacity, i + 1, j + 1));
+        }
+        if t.get(key(j + 1)) != Some(j as u64 + 1) || t.get(key(i)) != Some(i as u64) {
+            return Err(format!("capacity {}: after {} distinct puts a key that must have survived is missing or has the wrong value", c.capacity, i + 1));
+        }
+        ctx.evals(1);
+    }
+    ctx.class(&format!("capacity_{}", c.capacity));
+    ctx.nontrivial(c.capacity);
+    ctx.sample(|| serde_json::json!({"capacity": c.capacity, "overflow": c.overflow}));
     Ok(())
 }
